@@ -22,11 +22,12 @@ sys.dont_write_bytecode = True
 # property -> props modules that contribute units
 PROP_MODULES = {
     'C17': ['props.c17'],
+    'C11': ['props.c11'],
     'C18': ['props.step'],
     'C01': ['props.step'], 'C02': ['props.step'], 'C03': ['props.step'], 'C06': ['props.step'], 'C07': ['props.step'], 'C09': ['props.step'], 'C12': ['props.step'],
     'C19': ['props.step'],
     'C05': ['props.step'],
-    'C10': ['props.step'],
+    'C10': ['props.c10'],
     'C04': ['props.step'],
 }
 
@@ -153,7 +154,7 @@ def run_replay(path):
     except subprocess.TimeoutExpired:
         return None, 'replay timed out'
     out = p.stdout + p.stderr
-    if p.returncode == 1:
+    if p.returncode == 10 and 'RESULT: REPRODUCED' in out:
         return True, out
     if p.returncode == 0:
         return False, out
@@ -183,7 +184,7 @@ def cmd_replay(path):
     bad, text = unit.replay(rec['inputs'], rec)
     print(text)
     print('RESULT: %s' % ('REPRODUCED (real code violates the obligation on this input)' if bad else 'not reproduced'))
-    return 1 if bad else 0
+    return 10 if bad else 0
 
 
 def kf_match(k, prop, uid, ob):
@@ -263,7 +264,9 @@ def cmd_check(prop, tier, jobs, only=None):
                     faults.append((r['uid'], 'failed obligation without model: %s %s %s' % (ob['kind'], ob['label'], ob['detail'])))
                     continue
                 rep, out = run_replay(path)
-                if rep is True:
+                if rep is True and ob['kind'].startswith('contract.'):
+                    faults.append((r['uid'], 'CONTRACT-MISMATCH (sidecar contract disagrees with the body; the contract must be corrected): %s\n%s' % (ob['label'], out)))
+                elif rep is True:
                     violations.append((u, ob, path, out))
                 elif rep is False:
                     faults.append((r['uid'], 'ENGINE-MISMATCH: solver model for %s/%s does not reproduce natively\n%s' % (
